@@ -25,6 +25,9 @@ class Fun2(pytrans.Fun):
         if isinstance(e.func, ast.Name) and e.func.id == "getattr" and len(e.args) == 2 and not e.keywords:
             args = [self.expr(a, locals_) for a in e.args]
             return self.with_args(args, lambda a: ("(py_getattr %s %s)" % (a[0], a[1]), False))
+        if isinstance(e.func, ast.Attribute) and e.func.attr == "join" and len(e.args) == 1 and not e.keywords:
+            args = [self.expr(e.func.value, locals_), self.expr(e.args[0], locals_)]
+            return self.with_args(args, lambda a: ("(py_join %s %s)" % (a[0], a[1]), False))
         if isinstance(e.func, ast.Attribute) and e.func.attr == "values" and not e.args and not e.keywords:
             return self.with_args([self.expr(e.func.value, locals_)], lambda a: ("(py_values %s)" % a[0], False))
         return super().call(e, locals_)
@@ -33,6 +36,9 @@ class Fun2(pytrans.Fun):
         names = super().assigned(stmts)
         for s in stmts:
             for node in ast.walk(s):
+                if isinstance(node, ast.Call) and isinstance(node.func, ast.Attribute) and node.func.attr == "sort" \
+                        and isinstance(node.func.value, ast.Name) and node.func.value.id not in names:
+                    names.append(node.func.value.id)
                 # d[k] = v rebinds d (the value is immutable in the model)
                 if isinstance(node, ast.Assign) and len(node.targets) == 1 and isinstance(node.targets[0], ast.Subscript) \
                         and isinstance(node.targets[0].value, ast.Name) and node.targets[0].value.id not in names:
@@ -52,10 +58,20 @@ class Fun2(pytrans.Fun):
             args = [self.expr(s.targets[0].slice, locals_), self.expr(s.value, locals_)]
             code = self.lift(self.with_args(args, lambda a: ("(py_setitem %s %s %s)" % (ident(d), a[0], a[1]), False)))
             return "(do %s <- %s; %s)" % (ident(d), code, cont(locals_))
+        if isinstance(s, ast.Expr) and isinstance(s.value, ast.Call) and isinstance(s.value.func, ast.Attribute) \
+                and s.value.func.attr == "sort" and isinstance(s.value.func.value, ast.Name) \
+                and s.value.func.value.id in locals_ and not s.value.args and not s.value.keywords:
+            # l.sort() rebinds l
+            n = s.value.func.value.id
+            return "(do %s <- (py_sort %s); %s)" % (ident(n), ident(n), cont(locals_))
         if isinstance(s, ast.Continue):
             if not self.loop_tups:
                 raise Unsupported("continue outside a loop")
-            return "(Ok %s)" % self.loop_tups[-1]
+            return "(Ok %s)" % self.loop_tups[-1][0]
+        if isinstance(s, ast.Break):
+            if not self.loop_tups or self.loop_tups[-1][1] is None:
+                raise Unsupported("break outside a translated loop")
+            return "(Ok %s)" % self.loop_tups[-1][1]
         if isinstance(s, ast.Try):
             # try: <name> = <expr>   except <Exc>: <block>       (no else / finally, one handler, no `as`)
             if s.orelse or s.finalbody or len(s.handlers) != 1 or len(s.body) != 1:
@@ -81,8 +97,11 @@ class Fun2(pytrans.Fun):
             if s.orelse or not (isinstance(s.target, ast.Name) or pair):
                 raise Unsupported("for shape")
             for node in ast.walk(s):
-                if isinstance(node, (ast.Break, ast.Return)):
-                    raise Unsupported("break/return in for")
+                if isinstance(node, ast.Return):
+                    raise Unsupported("return in for")
+            has_break = any(isinstance(node, ast.Break) for node in ast.walk(s))
+            if has_break and any(isinstance(node, ast.For) and node is not s for node in ast.walk(s)):
+                raise Unsupported("break inside nested loops")
             it = self.expr(s.iter.func.value if pair else s.iter, locals_)
             state = [n for n in self.assigned(s.body) if n in locals_]
             tup = "(" + ", ".join(ident(n) for n in state) + ")" if len(state) != 1 else ident(state[0])
@@ -90,7 +109,25 @@ class Fun2(pytrans.Fun):
                 tup = "tt"
             pat = "'" + tup if len(state) > 1 else ("_" if not state else tup)
             inner_loc = set(locals_) | (set(pair) if pair else {s.target.id})
-            self.loop_tups.append(tup)
+            if has_break:
+                # the loop state carries a flag: once set, the remaining iterations do nothing
+                self.loop_tups.append(("(false, %s)" % tup, "(true, %s)" % tup))
+                try:
+                    inner = self.block(s.body, inner_loc, lambda loc: "(Ok (false, %s))" % tup)
+                finally:
+                    self.loop_tups.pop()
+                if pair:
+                    raise Unsupported("break in a loop over items()")
+                loopb = lambda c: "(py_for %s (false, %s) (fun %s '(brk, %s) => if (brk : bool) then (Ok (true, %s)) else %s))" % (
+                    c, tup, ident(s.target.id), tup, tup, inner)
+                after = cont(locals_)
+                code, pure = it
+                bpat = "(_, %s)" % tup
+                if pure:
+                    return "(do' %s <- %s; %s)" % (bpat, loopb(code), after)
+                itc = self.tmp()
+                return "(do %s <- %s; do' %s <- %s; %s)" % (itc, code, bpat, loopb(itc), after)
+            self.loop_tups.append(("%s" % tup, None))
             try:
                 body = self.block(s.body, inner_loc, lambda loc: "(Ok %s)" % tup)
             finally:
@@ -263,6 +300,72 @@ def gen5(repo):
     return "\n".join(out) + "\n"
 
 
+def _method_as_function(cls_tree, qual, newname, extra_params):
+    fn = pytrans.find_function(cls_tree, qual)
+    args = [a.arg for a in fn.args.args if a.arg not in ("self", "cls")] + [p.replace(".", "_") for p in extra_params]
+    out = ast.FunctionDef(name=newname,
+                          args=ast.arguments(posonlyargs=[], args=[ast.arg(a) for a in args], vararg=None, kwonlyargs=[],
+                                             kw_defaults=[], kwarg=None, defaults=[]),
+                          body=fn.body, decorator_list=[], lineno=fn.lineno)
+    for node in ast.walk(out):
+        if isinstance(node, ast.Return) and isinstance(node.value, ast.Tuple):
+            node.value = ast.List(elts=node.value.elts, ctx=ast.Load())
+    return out, fn.lineno
+
+
+def gen10(repo):
+    """FileResolver._mangle and FileResolver._strip_scheme_prefix (C10): the naming of recorded files"""
+    out = ["(* generated by tools/pytrans2.py from %s — do not edit *)" % repo,
+           "From InToto.Model Require Import Base Json PyLib Glob PyLibGlob.", ""]
+    rt = pytrans.load(repo, "in_toto/resolver/_resolver.py")
+    for qual, name, extra in (("FileResolver._mangle", "file_mangle", ["self._lstrip_paths"]),
+                              ("FileResolver._strip_scheme_prefix", "file_strip_scheme_prefix", ["self.SCHEME"])):
+        fn, line = _method_as_function(rt, qual, name, extra)
+        code, _ = Fun2({}, {}, attr_params=extra).function(fn, drop_self=False)
+        out.append("(* in_toto/resolver/_resolver.py : %s, line %d *)" % (qual, line))
+        out.append(code)
+    # the class constant the second function reads
+    cls = [n for n in rt.body if isinstance(n, ast.ClassDef) and n.name == "FileResolver"][0]
+    scheme = [n for n in cls.body if isinstance(n, ast.Assign) and len(n.targets) == 1 and isinstance(n.targets[0], ast.Name)
+              and n.targets[0].id == "SCHEME" and isinstance(n.value, ast.Constant) and isinstance(n.value.value, str)]
+    if len(scheme) != 1:
+        raise Unsupported("FileResolver.SCHEME is not a string constant")
+    out.append("Definition c_FileResolver_SCHEME : pyval := %s.\n" % pytrans.vstr(scheme[0].value.value))
+    return "\n".join(out) + "\n"
+
+
+def gen20(repo):
+    """DirectoryResolver._hash (C20): the text that gets hashed, as a function of the per-file hash dictionary.
+    The three statements after it are checked for their shape: sha256 over the UTF-8 bytes of that text."""
+    out = ["(* generated by tools/pytrans2.py from %s — do not edit *)" % repo,
+           "From InToto.Model Require Import Base Json PyLib Glob PyLibGlob.", ""]
+    rt = pytrans.load(repo, "in_toto/resolver/_resolver.py")
+    alg = [n for n in rt.body if isinstance(n, ast.Assign) and len(n.targets) == 1 and isinstance(n.targets[0], ast.Name)
+           and n.targets[0].id == "_HASH_ALGORITHM"]
+    if len(alg) != 1 or not isinstance(alg[0].value, ast.Constant) or alg[0].value.value != "sha256":
+        raise Unsupported("_HASH_ALGORITHM is not the constant 'sha256'")
+    fn = pytrans.find_function(rt, "DirectoryResolver._hash")
+    body = [s for s in fn.body if not (isinstance(s, ast.Expr) and isinstance(s.value, ast.Constant))]
+    tail = [ast.unparse(s) for s in body[-3:]]
+    want = ["digest_obj = digest(_HASH_ALGORITHM)", "digest_obj.update(text_repr.encode('utf-8'))",
+            "return {_HASH_ALGORITHM: digest_obj.hexdigest()}"]
+    if tail != want:
+        raise Unsupported("DirectoryResolver._hash: the hashing tail changed: %r" % (tail,))
+    imp = [n for n in rt.body if isinstance(n, ast.ImportFrom) and n.module == "securesystemslib.hash"
+           and any(a.name == "digest" and a.asname is None for a in n.names)]
+    if not imp:
+        raise Unsupported("`digest` is not securesystemslib.hash.digest")
+    head = ast.FunctionDef(name="dir_text",
+                           args=ast.arguments(posonlyargs=[], args=[ast.arg("file_hashes")], vararg=None, kwonlyargs=[],
+                                              kw_defaults=[], kwarg=None, defaults=[]),
+                           body=body[:-3] + [ast.Return(value=ast.Name(id="text_repr", ctx=ast.Load()))],
+                           decorator_list=[], lineno=fn.lineno)
+    code, _ = Fun2({}, {"_HASH_ALGORITHM": pytrans.vstr("sha256")}).function(head, drop_self=False)
+    out.append("(* in_toto/resolver/_resolver.py : DirectoryResolver._hash (up to the hashing of text_repr), line %d *)" % fn.lineno)
+    out.append(code)
+    return "\n".join(out) + "\n"
+
+
 def main():
     repo, outdir = sys.argv[1], sys.argv[2]
     os.makedirs(outdir, exist_ok=True)
@@ -281,6 +384,22 @@ def main():
             sys.exit(1)
         with open(os.path.join(outdir, "Fun5.v"), "w") as f:
             f.write(text5)
+    if "--dirtext" in sys.argv[3:]:
+        try:
+            text20 = gen20(repo)
+        except (Unsupported, SyntaxError, OSError) as e:
+            print("TRANSLATOR-ERROR Fun20.v: %s" % e)
+            sys.exit(1)
+        with open(os.path.join(outdir, "Fun20.v"), "w") as f:
+            f.write(text20)
+    if "--mangle" in sys.argv[3:]:
+        try:
+            text10 = gen10(repo)
+        except (Unsupported, SyntaxError, OSError) as e:
+            print("TRANSLATOR-ERROR Fun10.v: %s" % e)
+            sys.exit(1)
+        with open(os.path.join(outdir, "Fun10.v"), "w") as f:
+            f.write(text10)
     if "--items" in sys.argv[3:]:
         try:
             text3 = gen3(repo)
